@@ -87,6 +87,8 @@ def plan(tier):
     if tier == "quick":
         dnav = dnav[::2]
     dnav += corpus.merge_pack()
+    dnav += [("m", ((-1, "a"), (0, 1000), (1, ("m", (("a", 1000),))))),
+             ("m", (("a", ("m", ((-1, ("m", (("a", "a"),))), (1, 1000)))),))]
     EXTRA.append((dnav, [(p, paths.render(p, "."), paths.render(p, "/"))
                          for p in pnav]))
     bounds["full_vocabulary"] = {"documents": len(dnav), "paths": len(pnav),
